@@ -300,6 +300,26 @@ type LineTotal { y: Int }
 			if d := diffHashes(h1, hashTree(dirB)); len(d) > 0 {
 				report("generation-not-deterministic", fmt.Sprintf("two runs on clean copies of project %s (start directory root vs graph/, GOMAXPROCS 1 vs 16) differ in %v", p.Name, d))
 			}
+			// projects whose output hinges on what happens before anything is sorted: more fresh processes (a map's
+			// iteration order takes only a few distinct values for a small map, so two runs agree by chance too often)
+			if strings.HasPrefix(p.Name, "colliding") || strings.HasPrefix(p.Name, "same-basename") {
+				for k := 0; k < 6; k++ {
+					dirC := filepath.Join(root, fmt.Sprintf("p%dc%d", pi, k))
+					if err := writeProject(dirC, p); err != nil {
+						break
+					}
+					_, gerr := generate(dirC, []int{1, 2, 4, 16}[k%4])
+					hk := hashTree(dirC)
+					_ = os.RemoveAll(dirC)
+					if gerr != nil {
+						continue
+					}
+					if d := diffHashes(h1, hk); len(d) > 0 {
+						report("generation-not-deterministic", fmt.Sprintf("two runs on clean copies of project %s in separate processes differ in %v", p.Name, d))
+						break
+					}
+				}
+			}
 			// runs 3..: again on the tree that holds the previous output (idempotence), alternating processors
 			for k := 0; k < repeats; k++ {
 				if out, err := generate(dirA, []int{2, 16, 1, 4}[k%4]); err != nil {
